@@ -219,7 +219,11 @@ def run_cases(exe, cases, rng, timeout):
                 inp, outp = d / "cases.txt", d / "out.ndjson"
                 with open(inp, "w") as f:
                     f.write(header_line(hdrs[k]) + "\n")
-                    for c in pending:
+                    for j, c in enumerate(pending):
+                        if c["op"] != "fmt" and (c["id"] * 7 + k) % 9 == 0:
+                            # history: an unjudged named-args statement that is held back (backtrace) or whose sink throws goes
+                            # first; the judged statements after it re-use its transit-event slot
+                            f.write("P how=%s\n" % ("bt" if (c["id"] // 9) % 2 else "thr"))
                         f.write((d_line(c) if c["op"] == "fmt" else e_line(c)) + "\n")
                 rc, so, se = vlib.run_cmd([exe, "run", inp, outp], timeout=timeout)
                 if rc == -9:
@@ -915,7 +919,9 @@ def _rerun_with_header(exe, c, hdr):
     d = vlib.scratch("c12r")
     try:
         inp, outp = d / "cases.txt", d / "out.ndjson"
-        inp.write_text(header_line(hdr) + "\n" + (d_line(c2) if c2["op"] == "fmt" else e_line(c2)) + "\n")
+        # an end-to-end case is re-run behind the same kind of history it may have had in its shard (both unjudged history
+        # statements: every transit-event slot has then been used by one of them)
+        inp.write_text(header_line(hdr) + "\n" + (d_line(c2) if c2["op"] == "fmt" else "P how=bt\nP how=thr\n" + e_line(c2)) + "\n")
         vlib.run_cmd([exe, "run", inp, outp], timeout=120)
         got, ids = None, {"tid": "?", "pid": "?"}
         if outp.exists():
